@@ -87,3 +87,80 @@ func TestVerifSearch_C07_DecodeFailure(t *testing.T) {
 	fmt.Printf("VERIF-SAMPLE: insert into users with too few columns\n")
 	fmt.Printf("VERIF-BOUNDED: evaluations=%d distinct=%d failures=%d\n", evals, distinct, failures)
 }
+
+// Property clause (C07), schema changes: whenever a table is announced with a table id other than the recorded one - larger
+// or smaller (ids restart with the server) - the cached column layout is dropped and the new id recorded, so that the next
+// write is decoded with the current layout; an announcement with the recorded id keeps the cache.
+func TestVerifBounded_C07_TableVersions(t *testing.T) {
+	evals, failures := 0, 0
+	for _, c := range []struct {
+		name      string
+		recorded  uint64
+		known     bool
+		announced uint64
+		wantFlush bool
+	}{
+		{"first announcement", 0, false, 200, true},
+		{"same id again", 200, true, 200, false},
+		{"larger id", 200, true, 201, true},
+		{"smaller id (server restart)", 200, true, 17, true},
+		{"id 0 after a known id", 200, true, 0, true},
+	} {
+		evals++
+		events := make(chan *replication.BinlogEvent, 4)
+		b, _ := verifBinlog(events)
+		if c.known {
+			b.tableVersions["users"] = c.recorded
+		}
+		errs := make(chan error, 1)
+		f := reflect.ValueOf(b.streamer).Elem().FieldByName("ech")
+		reflect.NewAt(f.Type(), unsafe.Pointer(f.UnsafeAddr())).Elem().Set(reflect.ValueOf(errs))
+		done := make(chan struct{})
+		go func() { b.RunPollLoop(); close(done) }()
+		events <- &replication.BinlogEvent{
+			Header: &replication.EventHeader{EventType: replication.TABLE_MAP_EVENT},
+			Event:  &replication.TableMapEvent{Schema: []byte("db"), Table: []byte("users"), TableID: c.announced},
+		}
+		// an event of another database is skipped; once it has been taken from the channel the table map event before it is done
+		events <- verifRowsEventIn("otherdb")
+		for i := 0; i < 200 && len(events) > 0; i++ {
+			time.Sleep(time.Millisecond)
+		}
+		time.Sleep(2 * time.Millisecond)
+		errs <- fmt.Errorf("end of stream")
+		select {
+		case <-done:
+		case <-time.After(2 * time.Second):
+			t.Fatal("poll loop did not stop")
+		}
+		_, cached := b.columnMaps["users"]
+		detail := ""
+		if c.wantFlush && cached {
+			detail = fmt.Sprintf("table announced with id %d while id %d is recorded: the cached column layout is kept", c.announced, c.recorded)
+		}
+		if !c.wantFlush && !cached {
+			detail = "table announced with the recorded id: the cached column layout was dropped"
+		}
+		if v, ok := b.tableVersions["users"]; !ok || v != c.announced {
+			detail = fmt.Sprintf("recorded table id is %d (present: %v) after an announcement with id %d", v, ok, c.announced)
+		}
+		if detail != "" {
+			failures++
+			if failures <= 3 {
+				fmt.Printf("VERIF-FAIL-INPUT: %s\n", verifJSON(map[string]interface{}{"case": c.name, "detail": detail}))
+				t.Error(detail)
+			} else {
+				t.Fail()
+			}
+		}
+	}
+	fmt.Printf("VERIF-SAMPLE: table users announced with id 17 while id 200 is recorded\n")
+	fmt.Printf("VERIF-BOUNDED: evaluations=%d distinct=%d failures=%d\n", evals, evals, failures)
+}
+
+func verifRowsEventIn(db string) *replication.BinlogEvent {
+	return &replication.BinlogEvent{
+		Header: &replication.EventHeader{EventType: replication.WRITE_ROWS_EVENTv2},
+		Event:  &replication.RowsEvent{Table: &replication.TableMapEvent{Schema: []byte(db), Table: []byte("users")}, Rows: [][]interface{}{{int64(1), "a"}}},
+	}
+}
